@@ -2,6 +2,7 @@ package props
 
 import (
 	"context"
+	"encoding/binary"
 	"errors"
 	"fmt"
 	"io"
@@ -249,6 +250,11 @@ func runC10(s *core.Sim, tier string) RunInfo {
 			w.checkHashReply(s, resp, hash, tail, H, desc)
 		default:
 			// malformed / absent request: nothing but a reset or a close without data
+			if kind == "garbage" && parsesAsRequest(payload) {
+				// random bytes that happen to be a well-formed request for something: not malformed
+				s.Probe("garbage-is-a-valid-request")
+				break
+			}
 			for _, f := range resp.frames {
 				if f.StatusCode == p2p_pb.StatusCode_OK && len(f.Body) > 0 {
 					s.Violate("data-for-malformed-request", at, "request [%s]: the server sent a header", desc)
@@ -353,4 +359,18 @@ func (w *XW) checkHashReply(s *core.Sim, resp rawResp, hash []byte, tail, top ui
 	if err := h.UnmarshalBinary(f.Body); err != nil || string(h.Hash()) != string(hash) || !stored || len(resp.frames) != 1 {
 		s.Violate("false-data", at, "request [%s]: got %d frames, first decodes to %v (err %v); stored=%v", desc, len(resp.frames), h, err, stored)
 	}
+}
+
+// parsesAsRequest reports whether raw bytes are a length-delimited, well-formed HeaderRequest
+// that asks for something.
+func parsesAsRequest(b []byte) bool {
+	n, k := binary.Uvarint(b)
+	if k <= 0 || uint64(len(b)-k) < n {
+		return false
+	}
+	var req p2p_pb.HeaderRequest
+	if err := req.Unmarshal(b[k : k+int(n)]); err != nil {
+		return false
+	}
+	return req.Amount > 0 && req.Data != nil
 }
